@@ -266,6 +266,9 @@ def build_templates():
             elif uf.nout == 2:
                 # modf / frexp: the first output given, the second left to NumPy
                 TT["ufo2:" + n] = T((lambda uf: lambda A, p: uf(A["x"], out=(A["o"], None)))(uf), ("x", "o"), "o", None, "ufunc_out")
+                # both outputs given, the second one a plain ndarray (no units to take over)
+                TT["ufo2p:" + n] = T((lambda uf: lambda A, p: uf(A["x"], out=(A["o"], _plain_like(A["o"], uf))))(uf), ("x", "o"), "o",
+                                     None, "ufunc_out")
         elif uf.nin == 2:
             TT["uf:" + n] = T((lambda uf: lambda A, p: uf(A["x"], A["y"]))(uf), ("x", "y"), cat="ufunc")
             if uf.nout == 1 and uf.signature is None:
@@ -292,6 +295,8 @@ def build_templates():
                 # two outputs (divmod): the first one given, the second left to NumPy
                 TT["ufo2:" + n] = T((lambda uf: lambda A, p: uf(A["x"], A["y"], out=(A["o"], None)))(uf), ("x", "y", "o"), "o",
                                     None, "ufunc_out")
+                TT["ufo2p:" + n] = T((lambda uf: lambda A, p: uf(A["x"], A["y"], out=(A["o"], _plain_like(A["o"], uf))))(uf),
+                                     ("x", "y", "o"), "o", None, "ufunc_out")
     # out= together with where=: the elements the mask does not select keep the numbers they had
     def _mask(o):
         m = np.zeros(np.shape(o), dtype=bool)
@@ -626,6 +631,11 @@ def grid():
 
 
 # -------------------------------------------------------------- generator
+
+
+def _plain_like(o, uf):
+    """A fresh plain ndarray of o's shape as the second output of a two-output ufunc."""
+    return np.empty(np.shape(o), dtype="int32" if uf.__name__ == "frexp" else "float64")
 
 
 def gen_vals(r, dtype, n, positive=False, big=False):
